@@ -64,6 +64,49 @@ class Gen:
         if k == "poll": return f"start h{i} {self.r.choice([1, 1, 1, 2, 3, 3, 0, 5])} 0"
         return f"start h{i} 0 0"
 
+    def req_op(self):
+        """a request of one of the kinds that go through uv__work_submit or the io_uring ring: fs (read / write with buffer
+        counts around IOV_MAX = 1024, stat, open, close), numeric getaddrinfo / getnameinfo, random"""
+        r = self.r
+        x = r.below(12)
+        if x < 3: return f"fs write {r.choice([1, 3, 4, 5, 1024, 1025, 1025, 1500])}"
+        if x < 5: return f"fs read {r.choice([1, 4, 5, 1024, 1025, 2000])}"
+        if x < 8: return "fs " + r.choice(["stat", "open", "close"])
+        if x < 9: return "getaddrinfo"
+        if x < 10: return "getnameinfo"
+        return "random"
+
+    def build_fs_requests(self):
+        """request kinds beyond uv_queue_work on both routes: the loop is (or is not, or too late) configured for io_uring;
+        fs reads / writes around IOV_MAX buffers, stat / open / close, getaddrinfo / getnameinfo / random; uv_cancel on
+        each (queued behind a running work item, in the ring, already done); submissions from callbacks; uv_loop_close
+        while requests are outstanding"""
+        r = self.r
+        self.cfg += [f"config metrics {int(r.chance(1, 2))}", "config clock0 1000", f"config cblimit {r.range(15, 40)}"]
+        self.kinds += ["timer"]
+        self.main += ["op init timer"]
+        if r.chance(1, 2): self.main.append(f"op start h0 {r.range(0, 4)} {r.choice([0, 0, 2])}")
+        ring = r.below(4)          # 0: thread pool only; 1, 2: io_uring from the start; 3: configured after the first fs request
+        if ring in (1, 2): self.main.append("op use_iouring")
+        nq = 0
+        for rnd in range(r.range(1, 3)):
+            if r.chance(1, 2): self.main.append("op work"); nq += 1
+            for _ in range(r.range(1, 5)):
+                self.main.append("op " + self.req_op()); nq += 1
+                if ring == 3 and r.chance(1, 2): self.main.append("op use_iouring"); ring = 4
+                if r.chance(1, 3): self.main.append(f"op cancel r{r.below(nq)}")
+            if r.chance(1, 3): self.main.append("op loop_close")
+            if r.chance(1, 3): self.main.append("op alive")
+            self.main.append("op run " + r.choice(["NOWAIT", "ONCE", "ONCE", "DEFAULT"]))
+        for q in range(min(nq, 6)):
+            if r.chance(1, 3):
+                ops = [r.choice([self.req_op(), self.req_op(), f"cancel r{r.below(nq + 1)}", "alive", "close h0", "work", "stop_loop"])
+                       for _ in range(r.range(1, 2))]
+                self.on.append(f"on r{q} 0 " + " ; ".join(ops))
+        if r.chance(1, 3): self.on.append("on h0 0 " + self.req_op() + " ; " + self.req_op())
+        self.main += ["op close h0", "op run DEFAULT", "op run DEFAULT", "op loop_close"]
+        return self.cfg + self.on + self.main
+
     def rand_op(self, in_cb, own=None):
         """one op; mostly legal given what the generator knows"""
         r = self.r
@@ -90,7 +133,9 @@ class Gen:
             elif x < 67:
                 if r.chance(1, 4): return r.choice(["work_null", "reject getaddrinfo", "reject getnameinfo", "reject random"])
                 if self.nocb and r.chance(1, 2): self.nreq_est += 1; return "work_nocb"
-                self.nreq_est += 1; return "work"
+                self.nreq_est += 1
+                if r.chance(1, 2): return self.req_op()
+                return "work"
             elif x < (75 if b == "C02" else 71):
                 i = self.pick(("udp",))
                 if i is not None and r.chance(1, 6): return f"udp_send_bad h{i}"
@@ -332,8 +377,13 @@ class Gen:
         self.main += ["op init tcp"] * n + ["op init timer"]
         if r.chance(1, 2): self.main.append(f"op start h{n} {r.range(0, 4)} {r.choice([0, 2])}")
         for i in range(n):
-            self.main.append(f"op connect h{i}" + (" refused" if r.chance(1, 3) else ""))
-            if r.chance(1, 5): self.main.append(f"op close h{i}")
+            # the kernel's answer to connect(2): in progress (listener / nobody listening), or at once: an outright failure
+            # (uv_tcp_connect returns it: no request in flight) / ECONNREFUSED (deferred by libuv)
+            x = r.below(9)
+            self.main.append(f"op connect h{i}" + (" refused" if x < 2 else " " + r.choice(["unreach", "addrnotavail", "acces", "hostunreach"]) if x < 5
+                                                    else " sync_refused" if x < 6 else ""))
+            if x in (2, 3, 4) and r.chance(1, 3): self.main.append("op alive")
+            if r.chance(1, 4): self.main.append(f"op close h{i}")
         for q in range(n):
             if r.chance(1, 2): self.on.append(f"on r{q} 0 " + r.choice([f"close h{q}", "alive", f"close h{r.below(n)}", "work"]))
         if r.chance(1, 3): self.on.append(f"on h{n} 0 close h{r.below(n)} ; alive")
@@ -342,6 +392,66 @@ class Gen:
             if r.chance(1, 3): self.main.append("op alive")
         self.main.append("op loop_close")
         for i in range(len(self.kinds)):
+            self.main.append(f"op close h{i}")
+        self.main += ["op run DEFAULT", "op run DEFAULT", "op loop_close"]
+        return self.cfg + self.on + self.main
+
+    def build_udp_queue_close(self):
+        """several udp sends in one tick (only the first goes out at once, the others wait in write_queue), then uv_close in the
+        same tick / from the first send callback / after one iteration: every send reports UV_ECANCELED unless its datagram
+        really went out (the destination socket counts them)"""
+        r = self.r
+        self.cfg += [f"config metrics {int(r.chance(1, 2))}", "config clock0 1000", f"config cblimit {r.range(15, 30)}"]
+        if r.chance(1, 4): self.cfg.append(f"config eagain {r.range(1, 2)}")
+        self.kinds += ["udp", r.choice(["timer", "check", "idle"])]
+        self.main += ["op init udp", f"op init {self.kinds[1]}"]
+        if r.chance(1, 2): self.main.append("op start h0 0 0")
+        nsend = r.range(2, 6)
+        for _ in range(nsend): self.main.append("op udp_send h0")
+        where = r.below(4)
+        if where == 0: self.main.append("op close h0")
+        elif where == 1: self.on.append("on r0 0 " + r.choice(["close h0", "udp_send h0 ; udp_send h0 ; close h0"]))
+        elif where == 2: self.main += ["op run NOWAIT", "op udp_send h0", "op udp_send h0", "op udp_send h0", "op close h0"]
+        else: self.on.append(f"on r{r.below(nsend)} 0 udp_send h0 ; close h0")
+        self.main.append("op run " + r.choice(["NOWAIT", "ONCE", "DEFAULT"]))
+        self.main += ["op close h0", "op close h1", "op run DEFAULT", "op run DEFAULT", "op loop_close"]
+        return self.cfg + self.on + self.main
+
+    def build_timer_population(self):
+        """many timers (8..24: a heap three or more levels deep) started in random order, then stops / closes / restarts of
+        arbitrary ones (inner nodes, deep leaves, the root) before the loop decides how long to block"""
+        r = self.r
+        n = r.range(8, 24)
+        self.cfg += [f"config metrics {int(r.chance(1, 3))}", "config clock0 1000", f"config cblimit {r.range(30, 60)}"]
+        self.kinds += ["timer"] * n
+        self.main += ["op init timer"] * n
+        skew = r.chance(1, 2)
+        if skew:
+            # started in level order with due times that already respect the heap order: one subtree of the root holds the late
+            # timers, the other the early ones (so the last node, which replaces a removed one, may belong far above its new place)
+            big = r.below(2)
+            def val(i):
+                d, j = 0, i + 1
+                while j > 1: j //= 2; d += 1
+                top = i + 1
+                while top > 3: top //= 2
+                if i == 0: return r.range(1, 5)
+                return (200 if (top - 2) == big else 10) + 40 * d + r.below(30)
+            tmo = [val(i) for i in range(n)]
+        else:
+            tmo = [r.range(1, 400) if r.chance(4, 5) else r.choice([0, 2 ** 31, 2 ** 40]) for _ in range(n)]
+        for i in range(n):
+            self.main.append(f"op start h{i} {tmo[i]} {r.choice([0, 0, 0, 7]) if not skew else 0}")
+        deep = [i for i in range(n) if i >= 3] if skew else list(range(n))
+        for rnd in range(r.range(1, 3)):
+            for _ in range(r.range(1, max(2, n // 2) if not skew else 3)):
+                i = r.choice(deep)
+                self.main.append("op " + r.choice([f"stop h{i}", f"stop h{i}", f"close h{i}", f"start h{i} {r.range(1, 400)} 0", f"again h{i}"]))
+            self.main.append("op backend_timeout")
+            self.main.append("op run " + r.choice(["ONCE", "ONCE", "NOWAIT", "DEFAULT"]))
+            if r.chance(1, 2): self.on.append(f"on h{r.below(n)} 0 stop h{r.below(n)} ; close h{r.below(n)} ; backend_timeout")
+        if r.chance(1, 2): self.on.append(f"on h{r.below(n)} 0 stop_loop")
+        for i in range(n):
             self.main.append(f"op close h{i}")
         self.main += ["op run DEFAULT", "op run DEFAULT", "op loop_close"]
         return self.cfg + self.on + self.main
@@ -396,10 +506,16 @@ class Gen:
             return self.build_stop_then_run()
         if self.bias == "C03" and r.chance(1, 8):
             return self.build_embedder()
+        if r.chance(1, 8 if self.bias == "C03" else 24):
+            return self.build_timer_population()
+        if self.bias == "C02" and r.chance(1, 7):
+            return self.build_udp_queue_close()
         if r.chance(1, 8 if self.bias == "C02" else 16):
             return self.build_signal_burst()
         if self.bias == "C01" and r.chance(1, 8):
             return self.build_failing_submissions()
+        if r.chance(1, 6 if self.bias == "C01" else 12):
+            return self.build_fs_requests()
         if self.bias in ("C01", "C02") and r.chance(1, 10):
             return self.build_connects()
         if self.bias == "C02" and r.chance(1, 8):
@@ -422,6 +538,8 @@ class Gen:
             self.cfg.append("config full " + " ".join(map(str, ks)))
         if r.chance(1, 3 if self.bias == 'C03' else 6):
             self.cfg.append("config eintr " + " ".join(f"{r.below(25)}:{r.below(15)}" for _ in range(r.range(1, 4))))
+        if r.chance(1, 3):       # fs requests of this program take the io_uring route
+            self.main.append("op use_iouring")
         n = r.range(2, 4 + self.size)
         heartbeat = r.chance(4, 5)
         for i in range(n):
@@ -547,6 +665,9 @@ class Mon:
         self.stop_ops = 0         # uv_stop() calls since the previous uv_run() returned
         self.wq_pending = None    # watcher_queue non-empty at the last uv_backend_timeout() call
         self.work_fifo = []       # submitted, not cancelled work requests in pool order
+        self.sink = None          # datagrams received by the destination socket so far
+        self.sent_ok = 0          # udp send callbacks that reported success
+        self.route = {}           # request -> ring | pool | now (what libuv chose; `res rN route=` line before the op line)
         self.eagain = any(l.startswith("env sendm") for l in log)
         pipes_bound = set()
         i = 0
@@ -616,6 +737,18 @@ class Mon:
                 elif op in ("work", "work_nocb"):
                     Rq[nreq] = dict(kind="work", h=None, owed=True, cancelled=False, nocb=(op == "work_nocb"), grace=False, await_poll=False)
                     self.work_fifo.append(nreq); nreq += 1
+                elif op in ("fs", "getaddrinfo", "getnameinfo", "random"):
+                    # registered by the accepted submission (thread pool or io_uring ring), exactly one callback owed
+                    Rq[nreq] = dict(kind="work", api=op, h=None, owed=True, cancelled=False, nocb=False, grace=False, await_poll=False,
+                                    route=self.route.get(nreq))
+                    self.kinds_used.add("req:" + op + ("/ring" if self.route.get(nreq) == "ring" else ""))
+                    if ret != 0:
+                        self.bad("C01", "submission-ret", f"`{' '.join(text)}` returned {ret}", i)
+                    if self.route.get(nreq) == "pool": self.work_fifo.append(nreq)
+                    nreq += 1
+                elif op == "use_iouring":
+                    if ret != 0:
+                        self.bad("C01", "configure-ret", f"uv_loop_configure(UV_LOOP_USE_IO_URING_SQPOLL) returned {ret}", i)
                 elif op == "udp_send_nocb":
                     Rq[nreq] = dict(kind="udp", h=hid, owed=True, cancelled=False, sync=False, nocb=True, grace=True, polls=0); nreq += 1
                 elif op == "stop_loop":
@@ -628,12 +761,21 @@ class Mon:
                     Rq[nreq] = dict(kind="udp", h=hid, owed=True, cancelled=False, sync=not inflight and not own_cb); nreq += 1
                 elif op == "write":
                     if ret == 0:      # stream write: completes with 0, or UV_ECANCELED when the stream is closed first
-                        Rq[nreq] = dict(kind="write", h=hid, owed=True, cancelled=False, sync=False); nreq += 1
+                        Rq[nreq] = dict(kind="write", h=hid, owed=True, cancelled=False, sync=False, size=int(text[2])); nreq += 1
                 elif op == "connect_bad":
                     Rq[nreq] = dict(kind="connect", h=hid, owed=True, cancelled=False); nreq += 1
                 elif op == "connect":
+                    sync_fail = {"unreach": -101, "addrnotavail": -99, "acces": -13, "hostunreach": -113}.get(text[-1])
                     if ret == 0:      # a real connect: completes with 0 (listener) / ECONNREFUSED (no listener) once the kernel says so
-                        Rq[nreq] = dict(kind="connect", h=hid, owed=True, cancelled=False, real=(-111 if text[-1] == "refused" else 0)); nreq += 1
+                        Rq[nreq] = dict(kind="connect", h=hid, owed=True, cancelled=False, real=(-111 if text[-1] in ("refused", "sync_refused") else 0)); nreq += 1
+                    if sync_fail is not None:
+                        # connect(2) failed outright: uv_tcp_connect returns the error, no request is in flight, nothing stays registered
+                        self.stats["connect_sync_failures"] = self.stats.get("connect_sync_failures", 0) + 1
+                        if ret != sync_fail:
+                            self.bad("C01", "connect-fail-ret", f"uv_tcp_connect returned {ret} although connect(2) failed with {-sync_fail}", i)
+                        if o0 and nxt and (o0["ar"], o0["ah"], o0["alive"], o0["nh"]) != (nxt["ar"], nxt["ah"], nxt["alive"], nxt["nh"]):
+                            self.bad("C01", "failed-submission-registered", f"the failed `{' '.join(text)}` changed the loop: active_reqs {o0['ar']} -> {nxt['ar']}, "
+                                     f"active_handles {o0['ah']} -> {nxt['ah']}, alive {o0['alive']} -> {nxt['alive']}", i)
                 elif op in ("work_null", "udp_send_bad", "reject"):
                     want = -89 if op == "udp_send_bad" else -22
                     if ret != want:
@@ -790,8 +932,11 @@ class Mon:
                     else:
                         q["owed"] = False
                         if q["kind"] == "work":
-                            if status != (-125 if q["cancelled"] else 0):
-                                self.bad("C02", "work-status", f"after_work_cb status {status}, cancelled={q['cancelled']}", i)
+                            want = 0 if not q["cancelled"] else (-3003 if q.get("api") in ("getaddrinfo", "getnameinfo") else -125)
+                            if status != want:
+                                self.bad("C02", "work-status", f"{kind} callback status {status}, cancelled={q['cancelled']} (expected {want})", i)
+                            if kind != q.get("api", "work"):
+                                self.bad("C02", "request-cb-kind", f"request r{num} was submitted as {q.get('api', 'work')} but completed as {kind}", i)
                         elif q["kind"] == "connect":
                             hh = H.get(q["h"])
                             closing = bool(hh and hh["closing"])
@@ -806,6 +951,19 @@ class Mon:
                                 self.bad("C02", "udp-send-status", f"send_cb status {status} (handle closing={hh and hh['closing']}, sent synchronously={q['sync']})", i)
                             if hh and hh["closing"] and not hh["dead"] and self.cp is None:
                                 self.cp = {x for x, d in H.items() if d["closing"] and not d["dead"]}
+                            if kind == "udp_send" and status == 0:
+                                # success means the datagram went out: a send still queued when uv_close cancelled it must
+                                # report UV_ECANCELED, never 0
+                                self.sent_ok += 1
+                                self.stats["udp_status_vs_wire"] = self.stats.get("udp_status_vs_wire", 0) + 1
+                                if self.sink is not None and self.sent_ok > self.sink:
+                                    self.bad("C02", "send-success-not-transmitted", f"send_cb of r{num} reported status 0, but only {self.sink} datagram(s) "
+                                             f"ever reached the destination for {self.sent_ok} successful sends (handle closing={bool(hh and hh['closing'])}): "
+                                             "a request cancelled by uv_close must complete with UV_ECANCELED", i)
+                            if q["kind"] == "write" and status == 0 and q.get("size", 0) >= (1 << 20) and hh and hh["closing"]:
+                                # the peer never reads: a write of >= 1 MiB cannot have been transmitted completely
+                                self.bad("C02", "write-success-not-transmitted", f"write_cb of r{num} ({q['size']} bytes, peer never reads) reported "
+                                         "status 0 after uv_close: a request cancelled by uv_close must complete with UV_ECANCELED", i)
                 if depth == 0 and kind in ("idle", "prepare", "check", "close", "timer"):
                     self.end_dispatch(Rq)
                 if kind == "close" and ident[0] == "h":
@@ -849,6 +1007,15 @@ class Mon:
                         self.bad("C02", "epoll-registration-left", f"after close_cb of h{me.group(1)} its descriptor is still registered "
                                  f"in the loop's epoll instance ({me.group(2)} entry)", i)
                     i += 1; continue
+                mk = re.match(r"res r(\d+) sink=(\d+)$", l)
+                if mk:
+                    self.sink = int(mk.group(2))     # datagrams that have reached the destination so far (send_cb printed next)
+                    i += 1; continue
+                mr = re.match(r"res r(\d+) route=(\w+)$", l)
+                if mr:
+                    self.route[int(mr.group(1))] = mr.group(2)
+                    self.stats["route_" + mr.group(2)] = self.stats.get("route_" + mr.group(2), 0) + 1
+                    i += 1; continue
                 mw = re.match(r"res wq=(\d)$", l)
                 if mw:
                     self.wq_pending = mw.group(1) == "1"      # state at the uv_backend_timeout() call printed next
@@ -871,7 +1038,14 @@ class Mon:
                         self.bad("C02", "fs-event-watch-leak", f"after close_cb of fs_event h{m.group(1)} the loop's inotify descriptor holds "
                                  f"{m.group(2)} kernel watch(es); {want} expected (other active watchers: {others})", i)
                 i += 1; continue
-            if l.startswith("env sendm") or l.startswith("env soerror"):
+            if l.startswith("env sendm") or l.startswith("env soerror") or l.startswith("env iouring") or l.startswith("env connect"):
+                i += 1; continue
+            if l.startswith("REJECTED-REQUEST-CALLBACK"):
+                # a request whose submitting call returned an error is not in flight: it never gets a callback
+                # (in particular not a UV_ECANCELED one from uv_close)
+                self.bad("C02", "callback-for-rejected-request", f"a request whose submission had failed got its callback (`{l}`)"
+                         + (" while its handle was being closed" if self.cp is not None or any(d["closing"] and not d["dead"] for d in H.values()) else ""), i)
+                self.bad("C01", "callback-for-rejected-request", f"a request whose submission had failed got its callback (`{l}`)", i)
                 i += 1; continue
             if l.startswith("RUNAWAY-CALLBACKS"):
                 self.bad("C03", "runaway-phase", "a loop phase kept invoking callbacks far beyond the program's callback limit "
@@ -1229,7 +1403,7 @@ def prog_metrics(prog):
 
 
 def evaluate(ctx, exe, prog, tag, with_model=True):
-    if any(re.search(r"\b(touch|work_nocb|udp_send_nocb|dgram|init_fail|raise|spawn|open|fail|async_send_thread|connect|write)\b|config eagain", l) for l in prog):
+    if any(re.search(r"\b(touch|work_nocb|udp_send_nocb|dgram|init_fail|raise|spawn|(?<!fs )open|fail|async_send_thread|connect|(?<!fs )write)\b|config eagain", l) for l in prog):
         # file-system traffic, requests without completion callback, incoming datagrams / forced EAGAIN:
         # monitors only (the model has no semantics for them)
         with_model = False
@@ -1242,7 +1416,7 @@ def evaluate(ctx, exe, prog, tag, with_model=True):
     diff = None
     if with_model and rc == 0:
         ml = run_model(ctx, prog, log)
-        log_cmp = [l for l in log if not l.startswith("res ")]     # `res` lines are observations for the monitors only
+        log_cmp = [l for l in log if not l.startswith("res ") and not l.startswith("env iouring")]     # `res` lines are observations for the monitors only; `env iouring` is an input of the model
         if ml != log_cmp:
             log = log_cmp
             k = next((j for j in range(min(len(ml), len(log))) if ml[j] != log[j]), min(len(ml), len(log)))
@@ -1377,6 +1551,8 @@ def drive(ctx, pid, modules, bias_mix, quick_n, thorough_n):
     ctx.notes["rows"] = {
         "C01 handle_start/stop/ref/unref counter": hist.get("ref", 0) + hist.get("unref", 0) + hist.get("cb:ref", 0) + hist.get("cb:unref", 0) + hist.get("start", 0) + hist.get("stop", 0),
         "C01 req register/unregister pairing (incl. synchronous rejections)": hist.get("work", 0) + hist.get("cb:work", 0) + hist.get("udp_send", 0) + hist.get("reject", 0) + hist.get("cb:reject", 0) + hist.get("work_null", 0) + hist.get("connect_bad", 0),
+        "C01 fs / getaddrinfo / getnameinfo / random requests [submitted, of them: io_uring ring, thread pool queued, thread pool at once]":
+            [sum(hist.get(k, 0) + hist.get("cb:" + k, 0) for k in ("fs", "getaddrinfo", "getnameinfo", "random")), g("route_ring"), g("route_pool"), g("route_now")],
         "C01 uv__loop_alive / run exit": g("runs"),
         "C01 uv_loop_close (EBUSY seen)": g("ebusy"),
         "C01/C02 uv__finish_close (observations inside close_cb)": g("alive_in_close_phase") + g("close_from_cb"),
